@@ -255,6 +255,24 @@ static void op_huff(int argc, char** a)
 
 /* ---------- C19 ---------- */
 #include "rw.h"
+#include <dirent.h>
+#include <sys/resource.h>
+static int count_fds(void) { int n = 0; DIR* d = opendir("/proc/self/fd"); if (!d) return -1; while (readdir(d)) n++; closedir(d); return n; }
+static void* rw_read(int ty, char* path, size_t* cnt, int* st)
+{
+	switch (ty) {
+	case SZ_FLOAT: return readFloatData(path, cnt, st);
+	case SZ_DOUBLE: return readDoubleData(path, cnt, st);
+	case SZ_UINT8: return readByteData(path, cnt, st);
+	case SZ_INT8: return readInt8Data(path, cnt, st);
+	case SZ_INT16: return readInt16Data(path, cnt, st);
+	case SZ_UINT16: return readUInt16Data(path, cnt, st);
+	case SZ_INT32: return readInt32Data(path, cnt, st);
+	case SZ_UINT32: return readUInt32Data(path, cnt, st);
+	case SZ_INT64: return readInt64Data(path, cnt, st);
+	default: return readUInt64Data(path, cnt, st);
+	}
+}
 /* rw <type 0..9> <dataEndianType> <mode> <values>
  * mode 0: library writer, then library reader; mode 1: a file with every element byte-swapped (written with
  * writeByteData), read with the opposite endianness declared; mode 2: reader on a missing file. */
@@ -269,6 +287,28 @@ static void op_rw(int argc, char** a)
 	for (size_t i = 0; i < n; i++) memcpy(buf + i * es, &l[i], es);
 	int st_w = -99, st_r = -99;
 	dataEndianType = de;
+	int fds0 = count_fds();
+	if (mode == 3) {
+		/* the same file read again and again in a process that may hold few descriptors (a long-running writer/reader): every read must
+		 * go on returning the written values */
+		struct rlimit rl, old; getrlimit(RLIMIT_NOFILE, &old); rl = old; rl.rlim_cur = (rlim_t)(fds0 + 24); setrlimit(RLIMIT_NOFILE, &rl);
+		int bad_iter = 0; size_t cnt = 0;
+		writeByteData(buf, n * es, path, &st_w);
+		dataEndianType = sysEndianType == de ? de : de;
+		for (int it = 1; it <= 120 && !bad_iter; it++) {
+			cnt = (size_t)-1; st_r = -99;
+			void* r = rw_read(ty, path, &cnt, &st_r);
+			int same = r != NULL && st_r == 0 && cnt == n;
+			if (same && de == sysEndianType) same = memcmp(r, buf, n * es) == 0;
+			if (!same) bad_iter = it;
+			if (r) free(r);
+		}
+		setrlimit(RLIMIT_NOFILE, &old);
+		dataEndianType = saved;
+		printf("st_w=%d st_r=%d n=%zx iter=%d fds=%d\n", st_w, st_r, cnt, bad_iter, count_fds() - fds0);
+		unlink(path); free(buf); free(l);
+		return;
+	}
 	if (mode == 0) {
 		switch (ty) {
 		case SZ_FLOAT: writeFloatData_inBytes((float*)buf, n, path, &st_w); break;
@@ -292,21 +332,10 @@ static void op_rw(int argc, char** a)
 	}
 	size_t fl = 0; int st_f = -99; unsigned char* file = (mode == 2) ? NULL : readByteData(path, &fl, &st_f);
 	size_t cnt = (size_t)-1; void* r = NULL;
-	switch (ty) {
-	case SZ_FLOAT: r = readFloatData(path, &cnt, &st_r); break;
-	case SZ_DOUBLE: r = readDoubleData(path, &cnt, &st_r); break;
-	case SZ_UINT8: r = readByteData(path, &cnt, &st_r); break;
-	case SZ_INT8: r = readInt8Data(path, &cnt, &st_r); break;
-	case SZ_INT16: r = readInt16Data(path, &cnt, &st_r); break;
-	case SZ_UINT16: r = readUInt16Data(path, &cnt, &st_r); break;
-	case SZ_INT32: r = readInt32Data(path, &cnt, &st_r); break;
-	case SZ_UINT32: r = readUInt32Data(path, &cnt, &st_r); break;
-	case SZ_INT64: r = readInt64Data(path, &cnt, &st_r); break;
-	default: r = readUInt64Data(path, &cnt, &st_r); break;
-	}
+	r = rw_read(ty, path, &cnt, &st_r);
 	dataEndianType = saved;
-	if (mode == 2) { printf("st_r=%d null=%d\n", st_r, r == NULL); return; }
-	printf("st_w=%d st_r=%d n=%zx vals=", st_w, st_r, cnt);
+	if (mode == 2) { printf("st_r=%d null=%d fds=%d\n", st_r, r == NULL, count_fds() - fds0); return; }
+	printf("st_w=%d st_r=%d n=%zx fds=%d vals=", st_w, st_r, cnt, count_fds() - fds0);
 	if (cnt == 0 || r == NULL) printf("_");
 	else for (size_t i = 0; i < cnt; i++) { uint64_t v = 0; memcpy(&v, (char*)r + i * es, es); printf(i ? ",%" PRIx64 : "%" PRIx64, v); }
 	printf(" "); print_bytes("file", file, fl); printf("\n");
